@@ -77,6 +77,11 @@ def mint(ctx):
         return
     a0 = ctx.dec("amount0", 0, 10**12)
     a1 = ctx.dec("amount1", 0, 10**12)
+    if ctx.p.get("after_mirrored_ticks"):
+        # the mirrored pool's ticks were converted just before (two pools of opposite token order in one process): whatever the
+        # conversion remembers of those calls must not leak into this position's bounds
+        get_sqrt_ratio_at_tick(-tb)
+        get_sqrt_ratio_at_tick(-ta)
     L = get_liquidity(s, ta, tb, a0, a1, d0, d1)
     u0, u1 = get_amounts(s, ta, tb, L, d0, d1)
     ctx.outcome("minted")
@@ -218,6 +223,9 @@ def scenarios(tier):
                     )
                 )
             out.append(Scenario(f"amounts/{ta}_{tb}/d{d0}_{d1}", amounts, params=dict(ta=ta, tb=tb, d0=d0, d1=d1), shadows=SHADOWS, entry=("get_amounts", "get_amount0", "get_amount1"), nlsat=False, query_timeout_ms=30000, canary="CANARY amount0 is independent of price"))
+        if (ta, tb) in ((-60, 60), (193380, 196320)):
+            for region in ("below", "inside", "above"):
+                out.append(Scenario(f"mint/{ta}_{tb}/d{decs[0][0]}_{decs[0][1]}/{region}/after_the_mirrored_ticks_were_converted", mint, params=dict(ta=ta, tb=tb, d0=decs[0][0], d1=decs[0][1], region=region, after_mirrored_ticks=True), shadows=SHADOWS, entry=("get_liquidity", "get_amounts", "get_sqrt_ratio_at_tick"), nlsat=False, query_timeout_ms=30000))
         for region in ("below", "inside", "above"):
             out.append(Scenario(f"roundtrip/{ta}_{tb}/{region}", roundtrip, params=dict(ta=ta, tb=tb, d0=decs[0][0], d1=decs[0][1], region=region), shadows=SHADOWS, entry=("V3CoreLib.new_position", "V3CoreLib.close_position"), nlsat=False, query_timeout_ms=30000))
     return out
